@@ -640,6 +640,84 @@ Definition load_dbs (r : lstatus * list db * rd) : list db := snd (fst r).
 Definition load_resv (r : lstatus * list db * rd) : Z := r_resv (snd r).
 
 (** ------------------------------------------------------------------ *)
+(** * The decidable guard of the round-trip theorem (Props/C09.v) and the dataset a
+      restart yields.  The executable tie (Model/RunRdb.v, ISAVE) uses the same guard. *)
+Fixpoint nodupb (l : list bytes) : bool :=
+  match l with [] => true | x :: r => negb (bmem x r) && nodupb r end.
+Definition lt32 (n : Z) : bool := n <? two32.
+Definition str_ok (b : bytes) : bool := lt32 (len b).
+Definition pair_ok (p : bytes * bytes) : bool := str_ok (fst p) && str_ok (snd p).
+Definition u64b (z : Z) : bool := (0 <=? z) && (z <? two64).
+
+Fixpoint zlist_eqb (a b : list (bytes * Z)) : bool :=
+  match a, b with
+  | [], [] => true
+  | (m, s) :: a', (m', s') :: b' => beq m m' && (s =? s') && zlist_eqb a' b'
+  | _, _ => false
+  end.
+(** a sorted set as the skip list holds it: inserting its items one by one rebuilds it
+    (sorted by (score, member) with NaN last, no member twice) *)
+Definition zs_rebuild (z : list (bytes * Z)) : list (bytes * Z) :=
+  fold_left (fun acc p => zs_insert (fst p) (snd p) acc) z [].
+Definition zs_canonical (z : list (bytes * Z)) : bool := zlist_eqb (zs_rebuild z) z.
+
+(** stream IDs strictly increasing, above [last], components u64 *)
+Fixpoint sids_ok (last : sid) (es : list (sid * list (bytes * bytes))) : bool :=
+  match es with
+  | [] => true
+  | e :: r => negb (sid_leb (fst e) last) && u64b (fst (fst e)) && u64b (snd (fst e)) && sids_ok (fst e) r
+  end.
+Definition sentry_ok (e : sid * list (bytes * bytes)) : bool :=
+  negb (len (snd e) =? 0) && forallb pair_ok (snd e) && nodupb (map fst (snd e)).
+Definition value_ok (v : value) : bool :=
+  match v with
+  | VStr b => str_ok b
+  | VList l => lt32 (len l) && forallb str_ok l
+               && match l with [] => false | h :: _ => negb (beq h marker) end
+  | VSet s => lt32 (len s) && forallb str_ok s && nodupb s
+  | VHash h => lt32 (len h) && forallb pair_ok h && nodupb (map fst h)
+  | VZSet z => lt32 (len z) && forallb (fun p => str_ok (fst p) && u64b (snd p)) z
+               && negb (len z =? 0) && zs_canonical z
+  | VStream s => lt32 (stream_items (s_entries s)) && negb (len (s_entries s) =? 0)
+                 && sids_ok (0, 0) (s_entries s) && forallb sentry_ok (s_entries s)
+  end.
+(** [wl]: wall clock at the load.  A key already expired at the save is simply not written;
+    a live key must be well formed, its expiry must fit u64, and its deadline must not pass
+    during the downtime (the class expired-reloaded-immortal otherwise) *)
+Definition entry_ok (now ws wl : Z) (ke : bytes * entry) : bool :=
+  expired now (snd ke)
+  || (str_ok (fst ke) && value_ok (e_val (snd ke))
+      && match e_exp (snd ke) with
+         | Some t => (ws + (t - now) <? two64) && (wl <? ws + (t - now))
+         | None => true
+         end).
+Definition db_ok (now ws wl : Z) (d : db) : bool :=
+  lt32 (len (d_data d)) && nodupb (map fst (d_data d)) && forallb (entry_ok now ws wl) (d_data d).
+Definition rt_guard (now ws wl : Z) (ds : list db) : bool :=
+  Nat.eqb (length ds) 16 && forallb (db_ok now ws wl) ds.
+
+(** what is not persisted: consumer groups, last_id beyond the last entry *)
+Fixpoint last_sid (dflt : sid) (es : list (sid * list (bytes * bytes))) : sid :=
+  match es with [] => dflt | e :: r => last_sid (fst e) r end.
+Definition norm_value (v : value) : value :=
+  match v with
+  | VStream s => VStream {| s_entries := s_entries s; s_last := last_sid (0, 0) (s_entries s); s_groups := [] |}
+  | _ => v
+  end.
+(** the deadline on the clock of the restarted engine: [now'] at the load *)
+Definition shift (now now' ws wl t : Z) : Z := now' + (ws + (t - now) - wl).
+Definition aged_entry (now now' ws wl : Z) (e : entry) : entry :=
+  {| e_val := norm_value (e_val e);
+     e_exp := match e_exp e with Some t => Some (shift now now' ws wl t) | None => None end |}.
+Definition live_keys (now : Z) (d : db) : list (bytes * entry) :=
+  filter (fun ke => negb (expired now (snd ke))) (d_data d).
+Definition aged_db (now now' ws wl : Z) (d : db) : db :=
+  {| d_data := rev (map (fun ke => (fst ke, aged_entry now now' ws wl (snd ke))) (live_keys now d));
+     d_index := rev (flat_map (fun ke => match e_exp (snd ke) with
+                                         | Some t => [(fst ke, shift now now' ws wl t)]
+                                         | None => [] end) (live_keys now d)) |}.
+
+(** ------------------------------------------------------------------ *)
 (** * The dump file on disk (RdbEngine::save, rdb.rs:136-160): write everything to
       <file>.tmp (created/truncated), flush, rename over the dump.  A save is a list of
       write calls (the flush counts as the last one); [failat = Some k] = the k-th call
